@@ -44,6 +44,8 @@ def run(F, rep, tier):
     context_visibility_rule(F, rep)
     declaration_order_rule(F, rep)
     step_rule(F, rep)
+    from props import c01_fold
+    c01_fold.run(F, rep, tier)
     # premises
     c13.scope_neutral_premise(F, rep, "dmntk_feel_evaluator", 25)
     import callgraph
